@@ -1317,6 +1317,12 @@ func (s *Session) closeWithError(err error) error {
 						gracefulCloseSuccess = true
 						break
 					}
+					if s.outputHasErr.Load() {
+						// The output loop has stopped, the close request will never
+						// be sent from the queue. Don't wait the full second: an
+						// underlay closes its sessions one after the other.
+						break
+					}
 				}
 			}
 		} else {
